@@ -217,9 +217,11 @@ func (m *m6) skipGuardedLoop(hdr *ssa.BasicBlock) (string, map[*ssa.BasicBlock]b
 	}
 	idx := ssa.Value(cl.phi)
 	// rangeindex form: the index used in the body is phi+1
-	for _, r := range core.Refs(cl.phi) {
-		if b, ok := r.(*ssa.BinOp); ok && b.Op == token.ADD && b.Block() == hdr {
-			idx = b
+	if _, isPhi := cl.phi.(*ssa.Phi); isPhi {
+		for _, r := range core.Refs(cl.phi) {
+			if b, ok := r.(*ssa.BinOp); ok && b.Op == token.ADD && b.Block() == hdr {
+				idx = b
+			}
 		}
 	}
 	k := ""
@@ -392,7 +394,12 @@ func (m *m6) index0(v ssa.Value) string {
 			}
 		}
 	case *ssa.BinOp:
-		// rangeindex: phi + 1
+		// rangeindex: phi + 1 is the loop variable of a range loop
+		for _, cl := range m.cls {
+			if cl.phi == ssa.Value(x) {
+				return m.loopDomain(cl)
+			}
+		}
 		if x.Op == token.ADD {
 			if phi, ok := x.X.(*ssa.Phi); ok {
 				if one, isK := core.ConstInt(x.Y); isK && one == 1 {
